@@ -215,6 +215,89 @@ def run_spv_honest(case):
     return res
 
 
+# ------------------------------------------------------------------ engine: spv-reuse (E2: histories on ONE MerkleBlock object)
+def gen_spv_reuse(tier, seed):
+    top = 5 if tier == "quick" else 7
+    return [{"n": n, "mask": mask, "seed": seed} for n in range(1, top + 1) for mask in range(1, 1 << n)]
+
+
+def run_spv_reuse(case):
+    """validate -> alter the same object in place -> validate -> restore -> validate.  Every verdict and every list of
+    proved ids must equal what a FRESH object parsed from the same (altered) data gives, and an altered hash must not
+    validate: state kept on the object between calls is exposed."""
+    from buidl.merkleblock import MerkleBlock
+
+    res = Res()
+    n, seed, mask = case["n"], case["seed"], case["mask"]
+    leaves = leaves_for(seed, n)
+    match = mask_bits(n, mask)
+    root = R.merkle_root(leaves)
+    hdr = proof_header(seed, root)
+    bits, hs = R.build_partial(leaves, match, {})
+    raw = R.ser_merkleblock(hdr, n, hs, R.pack_bits(bits))
+    vc = {"engine": "spv-reuse", "case": case}
+    mb = attempt(lambda: MerkleBlock.parse(BytesIO(raw)))
+    if isinstance(mb, Rejected):
+        res.violation("C17/spv-reuse/parse", vc, repr(mb), "parses", "honest merkleblock does not parse")
+        return res
+    block_ids = {l[::-1] for l in leaves}
+
+    def observe():
+        v = attempt(mb.is_valid)
+        p = attempt(lambda: list(mb.proved_txs()))
+        return (v is True), (p if not isinstance(p, Rejected) else None)
+
+    def fresh():
+        return lib_check(R.ser_merkleblock(hdr, mb.total, [h[::-1] for h in mb.hashes], bytes(mb.flags)))[:2]
+
+    first = observe()
+    res.transitions += 1
+    if not first[0]:
+        res.violation("C17/spv-reuse/honest-rejected", vc, first, True, "honest proof does not validate")
+        return res
+    alterations = []
+    for j in range(len(mb.hashes)):
+        alterations.append((f"hash{j}-bitflip", j))
+    alterations += [("drop-last-hash", None), ("append-hash", None), ("flags-bit0", None), ("total+1", None)]
+    for name, j in alterations:
+        saved = (list(mb.hashes), bytes(mb.flags), mb.total)
+        if name.endswith("bitflip"):
+            h = bytearray(mb.hashes[j])
+            h[5] ^= 0x10
+            mb.hashes[j] = bytes(h)
+        elif name == "drop-last-hash":
+            mb.hashes.pop()
+        elif name == "append-hash":
+            mb.hashes.append(b"\x5a" * 32)
+        elif name == "flags-bit0":
+            f = bytearray(mb.flags)
+            if f:
+                f[0] ^= 1
+            mb.flags = bytes(f)
+        else:
+            mb.total += 1
+        got = observe()
+        want = fresh()
+        res.transitions += 1
+        cls = name.split("-")[0].rstrip("0123456789")
+        if got[0] != want[0] or (got[0] and got[1] != want[1]):
+            res.violation(f"C17/spv-reuse/stale-after-alteration/{cls}", dict(vc, case=dict(case, alteration=name)), got, want, f"after altering the same MerkleBlock object in place ({name}) is_valid()/proved_txs() differ from a fresh object parsed from the altered data")
+        elif got[0] and got[1] is not None and not set(got[1]) <= block_ids:
+            res.violation(f"C17/spv-reuse/foreign-id-proved/{cls}", dict(vc, case=dict(case, alteration=name)), got, "only block ids", "altered proof validates and proves a foreign id")
+        elif got[0] and name.endswith("bitflip"):
+            res.violation(f"C17/spv-reuse/altered-hash-validates", dict(vc, case=dict(case, alteration=name)), got, False, "proof with an altered hash validates")
+        else:
+            res.ok("altered in place == fresh object", nontrivial=(n, mask, name))
+        mb.hashes, mb.flags, mb.total = list(saved[0]), saved[1], saved[2]
+        back = observe()
+        res.transitions += 1
+        if back != first:
+            res.violation(f"C17/spv-reuse/not-restored/{cls}", dict(vc, case=dict(case, alteration=name)), back, first, "after restoring the original data the object does not validate as before")
+            return res
+    res.states += 1 + 2 * len(alterations)
+    return res
+
+
 # ------------------------------------------------------------------ engine: spv-sizes
 def size_list(tier):
     s = set()
@@ -924,6 +1007,15 @@ def engines(tier, seed):
             kind="E1",
             rule="every leaf count 1..10 (thorough 1..15) x all 2^n match subsets: merkleblock message built by the reference BIP37 builder, parsed by MerkleBlock.parse; "
             "is_valid() must be True and proved_txs() must equal the matched ids in block order. Non-trivial = n >= 2 (each (n, subset) distinct)",
+        ),
+        Engine(
+            "spv-reuse",
+            gen_spv_reuse,
+            run_spv_reuse,
+            kind="E2",
+            rule="histories on ONE MerkleBlock object: every proof with 1..5 (thorough 7) leaves x every non-empty match subset: validate, then for every in-place alteration "
+            "(bit flip of each hash, dropped / appended hash, flag bit, count+1): validate the SAME object again, compare verdict and proved ids with a fresh object parsed from the "
+            "altered data (an altered hash must not validate), restore, validate again (must equal the first observation)",
         ),
         Engine(
             "spv-sizes",
